@@ -145,6 +145,7 @@ Definition xs_inner_si : structinfo := match xs_inner with XObject _ _ _ (Some s
    properties on value fields with a nested struct and a pointer member (XNested); and the D44 descriptor
    (optional `a` on an int64 field, no treat-empty-as-default), which it excludes *)
 Example xs_rt_desc :
+  xrt_desc (xs_env xs_tab) xs_inner_props xs_inner_si = true /\
   xrt_desc (xs_env xs_tab) xs_ptrs_props xs_ptrs_si = true /\
   xrt_desc (xs_env xs_tab) xs_nested_props xs_nested_si = true /\
   xrt_desc (w_env [])
